@@ -13,9 +13,6 @@ parser on every generated string. -/
 namespace BS.Reader
 open BS.Entities
 
-/-- `[-.a-zA-Z0-9]` — the tail of `entityref = '&([a-zA-Z][-.a-zA-Z0-9]*)[^a-zA-Z0-9]'` (html/parser.py:22) -/
-def isNameChar (c : Nat) : Bool := isAlnum c || c = 45 || c = 46
-
 def digitVal (c : Nat) : Nat :=
   if isDigit c then c - 48 else if 65 ≤ c && c ≤ 70 then c - 55 else if 97 ≤ c && c ≤ 102 then c - 87 else 0
 
